@@ -23,9 +23,9 @@ import (
 
 var spell = map[string][]string{
 	"lbrace": {"{"}, "rbrace": {"}"}, "lbrack": {"["}, "rbrack": {"]"}, "comma": {","}, "colon": {":"},
-	"str": {`""`, `"a"`, `"\""`, `"\\"`, `"\/"`, `"\b\f\n\r\t"`, `"é😀"`, `"x\\"`, `"é😀"`, `" a b "`, `"\\\""`, `"{}[],:"`, `"a\\\\"`},
-	"num": {"0", "-0", "7", "12", "0.5", "-1.25", "1e3", "1E+3", "2e-2", "0e1", "0E5", "-0e-2", "10.01e+10", "9007199254740993"},
-	"lit": {"true", "false", "null"},
+	"str":  {`""`, `"a"`, `"\""`, `"\\"`, `"\/"`, `"\b\f\n\r\t"`, `"é😀"`, `"x\\"`, `"é😀"`, `" a b "`, `"\\\""`, `"{}[],:"`, `"a\\\\"`},
+	"num":  {"0", "-0", "7", "12", "0.5", "-1.25", "1e3", "1E+3", "2e-2", "0e1", "0E5", "-0e-2", "10.01e+10", "9007199254740993"},
+	"lit":  {"true", "false", "null"},
 	"junk": {"x", "'a'", "tru", "01", "1.", "-", ".5", "\"a", "\x00", "\xff", "+1", "1e", "nul", "/*c*/", "\"\n\""},
 }
 var wsForms = []string{"", "", " ", "\n", "\t", "\r\n", "  \t "}
